@@ -611,17 +611,20 @@ def flw5(ctx):
                 bools, _ = guard_switches(b, vals)
                 for sb, t_succ, f_succ in bools:
                     region = {x for x in cfg.reach if cfg.dominates(t_succ, x)} if t_succ != f_succ else set()
-                    fixes = False
+                    fix_blocks = set()
                     for x in region:
                         tt = b.blocks[x]["t"]
                         if tt["k"] == "call":
                             c2 = callee_path(tt) or ""
                             if (c2 in ("alloc::vec::Vec::remove", "alloc::vec::Vec::pop") and "Vec::<asca::syll::Syllable>" in (tt["callee"].get("inst") or "")) or c2.endswith("Word::remove_syll"):
-                                fixes = True
+                                fix_blocks.add(x)
                         for s in b.blocks[x]["s"]:
                             if s["k"] == "assign" and s["lhs"]["p"] == ["*"] and b.local_ty(s["lhs"]["l"]).endswith("asca::syll::Syllable"):
-                                fixes = True
-                    if fixes:
+                                fix_blocks.add(x)
+                    # the repair is what an empty syllable meets on EVERY way on: a further condition between the test and the
+                    # removal (`is_empty() && !joined.contains(..)`) lets an empty syllable through
+                    escapes = bool(fix_blocks) and t_succ not in fix_blocks and f_succ in cfg.reachable_from(t_succ, avoid=fix_blocks | err_exits)
+                    if fix_blocks and not escapes:
                         checks.add(i)
         per = {}
         for meth, bi, t, a in rems:
